@@ -35,6 +35,7 @@ type zzWorld struct {
 }
 
 var zzWantBlobEntry bool // an index additionally lists a blob-typed entry
+var zzSingleImageWorld bool // the harness is about something else than the graph: one image
 var zzWantArtifactEntry bool // an index additionally lists an OCI artifact manifest (no case of its own in the copy)
 
 var zzWantForeign bool // registry harness: the first layer of the first image is a foreign layer
@@ -87,7 +88,7 @@ func zzBuildWorld() *zzWorld {
 	for i := 0; i < 2; i++ {
 		w.pool = append(w.pool, w.put([]byte{'l', byte('0' + i)}, mediatype.OCI1LayerGzip, false))
 	}
-	if zzBool("is_index") {
+	if !zzSingleImageWorld && zzBool("is_index") {
 		n := zzInt("n_images", 1, 2)
 		idx := v1.Index{Versioned: v1.IndexSchemaVersion, MediaType: mediatype.OCI1ManifestList}
 		for i := 0; i < n; i++ {
